@@ -808,6 +808,72 @@ def c19_facts(repo, sk, facts, notes):
 # ===== C19 block end =====
 
 
+# ===== C12 block begin (MacroMetadata position members, PatternFormatter literal-brace pre-pass; add-only, owned by props/c12.py) =====
+def c12_facts(repo, sk, facts, notes):
+    """mm_pos_bits: the narrowest unsigned type a source-location position passes through (the two members, the
+    return types of the two helpers, any static_cast in their return statements): 16 = uint16_t, 64 = size_t;
+    pf_escapes_literal_braces: _generate_fmt_format_string doubles '{' / '}' of the literal text (outside %(...))
+    before the rewriting loop; skeletons of the methods M-PAT's MacroMetadata part and pre-pass were written against"""
+    global MACRO_ARGS
+    p = os.path.join(repo, 'include', 'quill', 'core', 'MacroMetadata.h')
+    docs = run_clang('#include "quill/core/MacroMetadata.h"\n', 'MacroMetadata', repo)
+    for m in ('_calc_file_name_pos', '_calc_colon_separator_pos', 'line', 'full_path', 'file_name', 'short_source_location'):
+        sk['c12_mm_' + m.lstrip('_')] = method_skeleton(docs, p, m) or []
+    WIDTH = {'uint8_t': 8, 'unsigned char': 8, 'uint16_t': 16, 'unsigned short': 16, 'uint32_t': 32, 'unsigned int': 32,
+             'unsigned': 32, 'uint64_t': 64, 'size_t': 64, 'std::size_t': 64, 'unsigned long': 64, 'unsigned long long': 64}
+    def width(t):
+        t = re.sub(r'\bconst\b', '', t).strip()
+        return WIDTH.get(t, 0)
+    ws = [width(field_type(docs, '_colon_separator_pos')), width(field_type(docs, '_file_name_pos'))]
+    for m in ('_calc_file_name_pos', '_calc_colon_separator_pos'):
+        fm = find_method(docs, m)
+        rt = (fm or {}).get('type', {}).get('qualType', '')
+        ws.append(width(rt.split('(')[0]))
+        rets = [l for l in sk['c12_mm_' + m.lstrip('_')] if l.lstrip().startswith('RET ')]
+        if len(rets) != 1: ws.append(0)
+        for l in rets:
+            for c in re.findall(r'static_cast<\s*([^>]+?)\s*>', l): ws.append(width(c))
+    facts['mm_pos_bits'] = int(min(ws))
+    # the accessors read the members directly (no narrowing in between)
+    acc = {'line': ['RET return _source_location + _colon_separator_pos + 1'],
+           'full_path': ['RET return std::string_view{_source_location, _colon_separator_pos}'],
+           'file_name': ['RET return std::string_view{_source_location + _file_name_pos, static_cast<size_t>(_colon_separator_pos - _file_name_pos)}'],
+           'short_source_location': ['RET return _source_location + _file_name_pos']}
+    if any(sk['c12_mm_' + k] != v for k, v in acc.items()):
+        facts['mm_pos_bits'] = 0; notes.append('C12: a MacroMetadata accessor is not the one M-PAT was written against')
+    p = os.path.join(repo, 'include', 'quill', 'backend', 'PatternFormatter.h')
+    docs = run_clang('#include "quill/backend/PatternFormatter.h"\n', 'PatternFormatter', repo)
+    MACRO_ARGS = True
+    try:
+        g = method_skeleton(docs, p, '_generate_fmt_format_string') or []
+    finally:
+        MACRO_ARGS = False
+    g = [re.sub(r'QUILL_THROW\(\s*(\w+)\s*\{.*$', r'QUILL_THROW(\1)', l) for l in g]      # the wording of the errors is not part of the skeleton
+    sk['c12_pf_generate_fmt_format_string'] = g
+    pre = ['FOR for (size_t i = 0; i < pattern.size()',
+           "  IF (pattern[i] == '%') && (i + 1 < pattern.size()) && (pattern[i + 1] == '(')",
+           "    EXPR i = pattern.find_first_of(')', i)",
+           '    IF i == std::string::npos',
+           '      BREAK',
+           '  ELSE',
+           "    IF (pattern[i] == '{') || (pattern[i] == '}')",
+           '      EXPR pattern.insert(i, 1, pattern[i])',
+           '      EXPR ++i']
+    ok = False
+    try:
+        i_nl = g.index('EXPR pattern += "\\n"')
+        i_for = g.index(pre[0])
+        src = open(p, 'rb').read().decode('utf8', 'replace')
+        hdr = re.search(r'for\s*\(\s*size_t\s+i\s*=\s*0\s*;\s*i\s*<\s*pattern\.size\(\)\s*;\s*\+\+i\s*\)', src) is not None
+        # the pre-pass is the first statement that touches the pattern, directly before the newline is appended
+        ok = (g[i_for:i_for + len(pre)] == pre and i_nl == i_for + len(pre) and hdr
+              and not any('pattern' in l for l in g[:i_for] if not l.startswith('DECL static_assert')))
+    except ValueError:
+        ok = False
+    facts['pf_escapes_literal_braces'] = ok
+# ===== C12 block end =====
+
+
 def main():
     repo = REPO; out = os.path.join(os.path.dirname(os.path.abspath(__file__)), '..', 'coq', 'gen', 'SrcFacts.v')
     a = sys.argv[1:]
@@ -824,6 +890,7 @@ def main():
     c17_facts(repo, sk, facts, notes)   # C17 block
     c13_facts(repo, sk, facts, notes)   # C13 block
     c19_facts(repo, sk, facts, notes)   # C19 block
+    c12_facts(repo, sk, facts, notes)   # C12 block
     txt = emit(sk, facts, notes, os.path.normpath(out))
     if dump:
         for k in sorted(sk):
